@@ -106,6 +106,20 @@ def lin_failures(sp, dt, aseed):
     if not np.linalg.norm(Mi - 1j * M) <= tol(dt) * scale:
         # distinguish 'imaginary part dropped' from other non-linearity
         out.append("c-linearity")
+    # the adjoint the operator hands out is an operator too: it must be C-linear as well (an anti-linear A.H passes
+    # every real-probe adjoint test)
+    try:
+        H = op.H
+        with warnings.catch_warnings():
+            warnings.simplefilter("ignore")
+            MH, MHi = LO.mat(H, H.ishape, dt)
+        sh = max(np.linalg.norm(MH), 1e-30)
+        if not np.linalg.norm(MHi - 1j * MH) <= tol(dt) * sh:
+            sh = max(sh, LO.tree_opscale(sp, dt))
+        if not np.linalg.norm(MHi - 1j * MH) <= tol(dt) * sh:
+            out.append("c-linearity:adjoint")
+    except Exception:
+        pass            # an adjoint that cannot be built or applied is C01's finding
     # additivity / homogeneity on a random complex combination
     rng = np.random.default_rng(aseed)
     n = M.shape[1]
